@@ -17,6 +17,7 @@ def main(argv):
     # multi-source operators: every input released exactly once, also when one input's teardown panics
     parts_multi.run(rep, PID, thorough)
     parts_multi.run_ho(rep, PID, thorough)
+    parts_multi.run_single(rep, PID, thorough)
     rep.cov['rule'] = common.PIPE_RULE + '; ' + ('kernel traces: seeded scenarios (1-4 producers with legal and illegal scripts, 0-2 unsubscribers, adders, waiters, '
                        'inside-callback unsubscription, panicking teardowns; observable safe/eventually-safe/unsafe and the 5 subjects) run on the real '
                        'library with yield hooks; non-trivial = distinct traces in which two harness threads had calls in flight simultaneously')
